@@ -106,7 +106,7 @@ def design(ctx):
     violated = None
     for mode, c, depth, slim in runs:
         m = ctx.tlc_must("TxPool", M_CFG % ALL_INV + consts(c, ops=depth, mode=mode, slim=slim), name="M_%s_%s" % (mode, c["name"]),
-                         timeout=2400, coverage=(not quick and mode == "sync" and c is CFG_B))
+                         timeout=2400, coverage=(not quick and mode == "sync" and c is CFG_C))  # (coverage on the larger CFG_B run exhausts the heap)
         if getattr(m, "zero_actions", None):
             ctx.cov["coverage_zero_actions"] = sorted(set(ctx.cov["coverage_zero_actions"]) | set(m.zero_actions))
         if m.violated:
